@@ -11,12 +11,15 @@ Inductive bexpr :=
 | BNew (ty : string) (fields : list (string * bexpr)) (* T{k: v, ...} and &T{...} *)
 | BList (elems : list bexpr)                          (* []T{...}, make([]T, 0) *)
 | BCall (f : string) (recv : option bexpr) (args : list bexpr)   (* a call of another translated function / method *)
+| BConcat (a c : bexpr)                                (* a + b on strings *)
 | BOpaque (text : string).                            (* any other call, by its source text: answered by an oracle *)
 Inductive bcond :=
-| CVar (e : bexpr) | CNotEmpty (e : bexpr) | CNoElems (e : bexpr) | CEq (a c : bexpr) | CAnd (a c : bcond) | COr (a c : bcond).
+| CVar (e : bexpr) | CNotNil (e : bexpr) | CNotEmpty (e : bexpr) | CNoElems (e : bexpr) | CEq (a c : bexpr) | CAnd (a c : bcond) | COr (a c : bcond).
 Inductive pstep := PField (f : string) | PIndex (i : nat).
 Inductive bstmt :=
 | BLet (x : string) (e : bexpr)
+| BLetN (xs : list string) (e : bexpr)                (* a, b, c := f(...) *)
+| BSetAll (l f : string) (e : bexpr)                  (* every element of field f of every element of l := e *)
 | BAssign (root : string) (path : list pstep) (e : bexpr)
 | BAppend (x : string) (e : bexpr)
 | BIf (c : bcond) (body els : list bstmt)
